@@ -98,6 +98,9 @@ func WorkerMain(t *testing.T) {
 		if p.Reader == "" {
 			p.Reader = []string{"plain", "plain", "eof", "short"}[simcore.NewRand(simcore.Mix(*fSeed, *fProp, run, "reader")).Intn(4)]
 		}
+		if p.EnumBatch == 0 {
+			p.EnumBatch = []int{1000, 1000, 1000, 1000, 1, 2, 3, 7}[simcore.NewRand(simcore.Mix(*fSeed, *fProp, run, "enumbatch")).Intn(8)]
+		}
 		st := time.Now()
 		o := ExecPlan(t, eng, p, work)
 		rec := Record{Run: run, Outcome: o, WallMS: float64(time.Since(st).Microseconds()) / 1000}
